@@ -11,8 +11,9 @@ pub struct TcpHeader {
     dstport: u16,     // Destination port number
     sequence: u32,    // Sequence number
     ack: u32,         // Acknowledgment number
-    data_off: u8,     // Data offset
-    flags: u16,       // Flags for TCP
+    data_off: u8,     // Data offset (4 bits)
+    reserved: u8,     // Reserved bits between data offset and flags (4 bits)
+    flags: u16,       // Control bits (8 bits)
     window_size: u16, // Window size
     checksum: u16,    // Checksum for integrity
     urgent: u16,      // Urgent pointer
@@ -25,7 +26,10 @@ impl From<&TcpHeader> for Vec<u8> {
         bytes.extend_from_slice(&hdr.dstport.to_be_bytes());
         bytes.extend_from_slice(&hdr.sequence.to_be_bytes());
         bytes.extend_from_slice(&hdr.ack.to_be_bytes());
-        bytes.extend_from_slice(&hdr.flags.to_be_bytes());
+        let off_rsvd_flags: u16 = ((hdr.data_off as u16 & 0x0F) << 12)
+            | ((hdr.reserved as u16 & 0x0F) << 8)
+            | (hdr.flags & 0x00FF);
+        bytes.extend_from_slice(&off_rsvd_flags.to_be_bytes());
         bytes.extend_from_slice(&hdr.window_size.to_be_bytes());
         bytes.extend_from_slice(&hdr.checksum.to_be_bytes());
         bytes.extend_from_slice(&hdr.urgent.to_be_bytes());
@@ -86,7 +90,8 @@ impl Tcp {
             rawdata[off + 11],
         ]);
         let data_off = rawdata[off + 12] >> 4;
-        let flags = u16::from_be_bytes([rawdata[off + 12], rawdata[off + 13]]);
+        let reserved = rawdata[off + 12] & 0x0F;
+        let flags = rawdata[off + 13] as u16;
         let window_size = u16::from_be_bytes([rawdata[off + 14], rawdata[off + 15]]);
         let checksum = u16::from_be_bytes([rawdata[off + 16], rawdata[off + 17]]);
         let urgent = u16::from_be_bytes([rawdata[off + 18], rawdata[off + 19]]);
@@ -97,6 +102,7 @@ impl Tcp {
             sequence,
             ack,
             data_off,
+            reserved,
             flags,
             window_size,
             checksum,
@@ -190,6 +196,9 @@ impl Tcp {
     pub fn set_data_off(&self, data_off: Rc<Object>) -> Result<(), String> {
         match data_off.as_ref() {
             Object::Integer(data_off_value) => {
+                if *data_off_value < 0 || *data_off_value > 15 {
+                    return Err("Invalid value for data offset".to_string());
+                }
                 self.header.borrow_mut().data_off = *data_off_value as u8;
                 Ok(())
             }
@@ -200,6 +209,9 @@ impl Tcp {
     pub fn set_flags(&self, flags: Rc<Object>) -> Result<(), String> {
         match flags.as_ref() {
             Object::Integer(flags_value) => {
+                if *flags_value < 0 || *flags_value > 255 {
+                    return Err("Invalid value for flags".to_string());
+                }
                 self.header.borrow_mut().flags = *flags_value as u16;
                 Ok(())
             }
